@@ -22,7 +22,7 @@ MCNext ==
   \/ \E r \in Repos : DeleteRepo(r)
   \/ \E r \in Repos, new \in Repos : RenameRepo(r, new)
   \/ \E r \in Repos, ps \in SUBSET Paths : DeleteEntries(r, ps)
-  \/ \E r \in Repos, n \in 1..2, mode \in {"none", "tags", "semver"} : Squash(r, n, mode)
+  \/ \E r \in Repos, n \in 1..2, mode \in {"none", "tags", "semver", "both"} : Squash(r, n, mode)
 
 MCSpec == Init /\ [][MCNext]_mvars
 
